@@ -231,6 +231,8 @@ def campaign_patterns(ck: Check, n_extra: int) -> None:
     rng = ck.rng.fork("c01-patterns")
     for p, pos, kind in PATTERN_CORPUS:
         camp.hit("corpus")
+        for t in tags_of(p):
+            camp.hit("pattern:" + t)
         c = {"doc": document(p, pos), "model": kind, "opts": {}, "clean": True, "features": ["pattern", pos] + tags_of(p), "formatters": "default"}
         judge(ck, camp, c)
     plan = core_strata()
